@@ -1,10 +1,10 @@
-(* C09 oracle and non-triviality on wiring cases. Correspondence: Corr/Wiring.v [wcheck];
+(* C09 oracle and non-triviality on wiring cases. Correspondence: Corr/Wiring.v [wcheck_obs];
    oracles: Corr/WiringOracles.v (static scenario data + the implementation's observation only). *)
 From Coq Require Import List Arith Bool.
 From IocVerif Require Import Model.App Corr.Wiring Corr.WiringOracles.
 Import ListNotations.
 
-Definition check_case : wcase -> bool := wcheck.
+Definition check_case : wcase -> bool := wcheck_obs.
 
 (* a fault or an unsatisfied required point fails the start with an error, no runner runs; optional points never fail *)
 Definition oracle_base (c : wcase) : bool := oracle_clean_outcome c && oracle_faults c.
@@ -30,7 +30,7 @@ Definition kf_c05a (cs : list wcase) : list nat := map w_id (filter kf_c05a_case
 
 Definition nontrivial (c : wcase) : bool := negb (no_faults c) || negb (all_satisfiable c).
 
-Definition mismatches (cs : list wcase) : list nat := wmismatches cs.
+Definition mismatches (cs : list wcase) : list nat := wmismatches_obs cs.
 Definition violations (cs : list wcase) : list nat :=
   map w_id (filter (fun c => negb (oracle_case c)) cs).
 Definition count_nontrivial (cs : list wcase) : list nat := [length (filter nontrivial cs)].
